@@ -186,6 +186,25 @@ ae = body_of(sw, r'bool\s+SessionWriter::addEvent\s*\(')
 fact('writer_addEvent_shape', 'bool', coq_bool(has(ae, r'totalSize\s*=\s*size\s*\+\s*sizeof\s*\(\s*std::uint32_t\s*\)\s*;\s*if\s*\(\s*!\s*_qw\.beginWrite\s*\(\s*totalSize\s*\)\s*\)\s*\{\s*replaceChannel\s*\(\s*totalSize\s*\)\s*;\s*if\s*\(\s*!\s*_qw\.beginWrite\s*\(\s*totalSize\s*\)\s*\)\s*\{\s*return\s+false\s*;\s*\}\s*\}') and
     has(ae, r'mserialize::serialize\s*\(\s*std::uint32_t\s*\(\s*size\s*\)\s*,\s*_qw\s*\).*_qw\.endWrite\s*\(\s*\)\s*;\s*return\s+true')))
 
+# ---------------------------------------------------------------- recovery (C20, C08)
+br = src('bin/brecovery.cpp')
+def hexconst(text, pat):
+    m = re.search(pat, text, re.S)
+    return int(m.group(1), 16) if m else 0
+fact('recov_magic_meta', 'N', '%d%%N' % hexconst(br, r'metadataMagic\s*=\s*toArray\s*\(\s*(0x[0-9A-Fa-f]+)\s*\)'))
+fact('recov_magic_data', 'N', '%d%%N' % hexconst(br, r'\bdataMagic\s*=\s*toArray\s*\(\s*(0x[0-9A-Fa-f]+)\s*\)'))
+lm = re.findall(r'_(?:clockSync|sources)\s*=\s*\{\s*(0x[0-9A-Fa-f]+)\s*,\s*this\s*\}', se)
+fact('lib_magic_meta', 'N', '%d%%N' % (int(lm[0], 16) if len(lm) == 2 and lm[0] == lm[1] else 0))
+fact('lib_magic_data', 'N', '%d%%N' % hexconst(se, r'new\s*\(\s*buffer\s*\)\s*std::uint64_t\s*\(\s*(0x[0-9A-Fa-f]+)\s*\)'))
+cq = body_of(br, r'bool\s+checkQueueInvariants\s*\(')
+fact('recov_checks_indices', 'bool', coq_bool(all(has(cq, r'if\s*\(\s*queue\.%s\s*>\s*queue\.capacity\s*\)\s*\{\s*(?:STDERR_ERROR|BINLOG_ERROR)\s*\([^;]*\)\s*;\s*return\s+false\s*;' % f) for f in ('writeIndex', 'dataEnd', 'readIndex'))
+     and has(body_of(br, r'bool\s+readData\s*\('), r'if\s*\(\s*!\s*checkQueueInvariants\s*\(\s*queue\s*\)\s*\)\s*\{\s*return\s+false\s*;\s*\}.*queueBuffer\.resize')))
+rm = body_of(br, r'bool\s+readMetadata\s*\('); rdd = body_of(br, r'bool\s+readData\s*\(')
+fact('recov_checks_sizes', 'bool', coq_bool(has(rm, r'if\s*\(\s*size\s*>\s*remainingSize\s*\(\s*input\s*\)\s*\)\s*\{\s*(?:STDERR_ERROR|BINLOG_ERROR)\s*\([^;]*\)\s*;\s*return\s+false\s*;\s*\}.*metadata\.resize\s*\(\s*size\s*\)') and
+     has(rdd, r'if\s*\(\s*queue\.capacity\s*>\s*remainingSize\s*\(\s*input\s*\)\s*\)\s*\{\s*(?:STDERR_ERROR|BINLOG_ERROR)\s*\([^;]*\)\s*;\s*return\s+false\s*;\s*\}.*queueBuffer\.resize\s*\(\s*queue\.capacity\s*\)')))
+fact('recov_checks_entries', 'bool', coq_bool(has(rm, r'if\s*\(\s*!\s*checkEntryBuffer\s*\(\s*metadata\s*\)\s*\)\s*\{\s*return\s+false\s*;\s*\}.*output\.push_back') and
+     has(rdd, r'if\s*\(\s*!\s*checkEntryBuffer\s*\(\s*data\s*\)\s*\)\s*\{\s*return\s+false\s*;\s*\}.*output\.push_back')))
+
 out = ['(* GENERATED by tools/srcfacts.py from %s -- do not edit *)' % vlib.REPO,
        'From Coq Require Import List NArith String.', 'Import ListNotations.', 'Local Open Scope string_scope.', ''] + facts + ['']
 os.makedirs(os.path.join(vlib.COQ, 'Gen'), exist_ok=True)
